@@ -190,6 +190,18 @@ func nativeValidate(rp *replayer, rep *RunReport, fresh []*Candidate, property s
 				if strings.HasPrefix(r.Status, "assumed-away") {
 					continue // the harness declares this case not reproducible natively
 				}
+				if r.Status == "assert-fail" || r.Status == "panic" {
+					// the natively compiled real code fails the harness on this input: a violation
+					// witnessed natively (the engine followed another path: also reported as mismatch)
+					kind, label, msg := "assert", "", "native run fails the assertion (engine path passed)"
+					if r.Status == "panic" {
+						kind, label, msg = "panic", "crash", r.PanicMsg
+					} else if len(r.Fails) > 0 {
+						label = r.Fails[0]
+					}
+					rep.NativeFound = append(rep.NativeFound, &Candidate{Property: property, Harness: rep.Cfg.Harness, Kind: kind,
+						Label: label, Msg: msg, Site: "native", Nondets: s.Model, Trace: s.Trace, Observes: r.Observes, Params: rep.Cfg.Params})
+				}
 				if r.Status != "ok" {
 					rep.ValidMism = append(rep.ValidMism, fmt.Sprintf("passing path (trace %q) ended natively with status %s %v %s", s.Trace, r.Status, r.Fails, r.PanicMsg))
 					if verbose {
@@ -208,9 +220,22 @@ func nativeValidate(rp *replayer, rep *RunReport, fresh []*Candidate, property s
 	// 2. candidates, one process each
 	for _, c := range fresh {
 		if c.Kind == "deadlock" || c.Kind == "leak" || c.Kind == "stall" {
-			// schedule-dependent: replay needs the recorded schedule; see DESIGN §2.8
-			if replaySchedule(rp, rep, c, verbose) {
+			// liveness candidates: natively the same inputs must hang (test timeout) or leave the
+			// harness's own leak assertion failing; the native schedule is the runtime's
+			rep.Replayed++
+			res, out, err := rp.run(pkg, []replayCase{{Harness: c.Harness, Nondets: c.Nondets, Params: rep.Cfg.Params}}, 45*time.Second)
+			if err != nil {
+				rep.ValidMism = append(rep.ValidMism, firstLine(err.Error()))
+				continue
+			}
+			if res[0].Status == "timeout" || res[0].Status == "missing" || res[0].Status == "assert-fail" {
+				rep.ReplayOK++
 				rep.Violations = append(rep.Violations, c)
+			} else {
+				rep.ValidMism = append(rep.ValidMism, fmt.Sprintf("liveness candidate kind=%s (%s) did not reproduce natively: status %s", c.Kind, c.Msg, res[0].Status))
+				if verbose {
+					fmt.Println(out)
+				}
 			}
 			continue
 		}
